@@ -196,7 +196,8 @@ def synth_text(name, crit, assoc, flow, hard):
         name, crit, assoc, flow, hard)
     t += "@ModellingHypotheses {@@HYPS@@};\n"
     if ortho:
-        t += "@OrthotropicBehaviour<Pipe>;\n"
+        # (the Cazacu criteria only support the Plate convention, as in the repository's PlasticityTest14/15)
+        t += "@OrthotropicBehaviour<%s>;\n" % ("Plate" if "Cazacu" in crit else "Pipe")
     t += "@Algorithm NewtonRaphson;\n@Epsilon 1.e-14;\n@Theta 1;\n\n"
     t += "@Brick StandardElastoViscoPlasticity {\n  stress_potential : \"Hooke\" {young_modulus : 150e3, poisson_ratio : 0.3},\n"
     t += "  inelastic_flow : \"%s\" {\n    %s\n  }\n};\n" % (flow, body)
